@@ -93,7 +93,16 @@ def has_token(value, token):
     return token in [x.strip().lower() for x in value.split(",")]
 
 
-def run_connect(respond, opts, fault=None):
+class _Failed:
+    """stands in for the object create_connection() never returned"""
+    connected = False
+    sock = None
+
+    def getstatus(self):
+        return None
+
+
+def run_connect(respond, opts, fault=None, use_cc=False):
     """returns (net, ws, outcome) ; outcome = ('ret',) or ('exc', exception)."""
     lib.reset_globals()
     env.install_urandom("real")
@@ -108,6 +117,15 @@ def run_connect(respond, opts, fault=None):
     net.peer_for = peer_for
     simnet.install(net)
     try:
+        if use_cc:
+            # the module-level entry point: returns the connected object or raises
+            try:
+                ws = lib.websocket.create_connection("ws://example.com/chat", **opts)
+                out = ("ret",)
+            except Exception as e:
+                ws = _Failed()
+                out = ("exc", e)
+            return net, ws, out, hops
         ws = lib.websocket.WebSocket()
         try:
             ws.connect("ws://example.com/chat", **opts)
@@ -151,7 +169,7 @@ def recipe_case(status, upgrade, connection, accept, offered, selected):
     opts = {}
     if offered:
         opts["subprotocols"] = offered
-    net, ws, out, hops = run_connect(respond, opts)
+    net, ws, out, hops = run_connect(respond, opts, use_cc=(hash((status, upgrade, connection, accept, selected)) % 3 == 0))
     ok = status == 101 and has_token(upgrade, "websocket") and has_token(connection, "upgrade") and accept == "right"
     expect = ok
     if ok and offered:
@@ -190,7 +208,7 @@ def redirect_case(length, limit, ending, rstatus):
             first_key[0] = req["key"]
         return respond(req, hop, sock)
 
-    net, ws, out, hops = run_connect(respond2, opts)
+    net, ws, out, hops = run_connect(respond2, opts, use_cc=(length + (limit or 7)) % 2 == 0)
     expect = (length <= eff) and ending == "valid"
     if ending == "valid-prevkey":
         expect = False if length >= 1 else True
@@ -220,7 +238,7 @@ def fault_case(pos, kind, hop_with_fault):
         sock.at_end = kind
         return full[:pos]
 
-    net, ws, out, hops = run_connect(respond, {})
+    net, ws, out, hops = run_connect(respond, {}, use_cc=pos % 2 == 1)
     label = "%s after %d bytes of a valid response (hop %d)" % (kind, pos, hop_with_fault)
     return check_outcome(net, ws, out, False, label, {"part": "fault", "fault": kind, "hop": hop_with_fault})
 
